@@ -105,5 +105,7 @@ package rpm
 //@   ensures [C02] description: implies(err == nil, meta.Description == old(info.Description) && meta.Summary == nzs(old(info.RPM.Summary), firstLine(old(info.Description))))
 //@   ensures [C02 C07] buildhost: implies(err == nil && old(info.RPM.BuildHost) != "", meta.BuildHost == old(info.RPM.BuildHost))
 //@   ensures [C07] buildtime: implies(err == nil && !old(info.MTime.IsZero()), meta.BuildTime == old(info.MTime))
+//@   ensures [C07] no-clock: implies(!old(info.MTime.IsZero()), flag("clockRead") == old(flag("clockRead")))
+//@   ensures [C07] no-env: implies(old(info.RPM.BuildHost) != "", flag("envRead") == old(flag("envRead")))
 //@   ensures [C17] compressor-default: implies(err == nil, meta.Compressor == nzs(old(info.RPM.Compression), "gzip:-1"))
 //@   modifies [C11 C12] &info.RPM.Compression, flag("envRead"), flag("clockRead")
